@@ -242,3 +242,78 @@ fn c08_trim() {
     forget(nodes);
     kani::cover!(true);
 }
+
+
+/// C02 on a TRIMMED 16-leaf-slot tree (27 of 31 slots present, last occupied leaf = 13): the direct
+/// path of a removed leaf leaves the vector and comes back inside it below the root. Every
+/// direct-path node that exists must be blank afterwards. Leaves 12 and 13 occupied, all parents
+/// symbolic, other leaves blank.
+fn remove_trimmed_case<const X: u32>() {
+    const N: usize = 27;
+    let mut v: Vec<Option<Node>> = Vec::with_capacity(N);
+    let mut occ = [false; N];
+    let mut i = 0;
+    while i < N {
+        if i % 2 == 0 {
+            let o = i == 24 || i == 26;
+            occ[i] = o;
+            v.push(if o { Some(Node::Leaf(leaf(i as u8, 1, 2))) } else { None });
+        } else {
+            let o: bool = kani::any();
+            occ[i] = o;
+            v.push(if o { Some(Node::Parent(parent(i as u8))) } else { None });
+        }
+        i += 1;
+    }
+    let mut nodes = NodeVec::from(v);
+    match nodes.blank_leaf_node(leaf_index_unchecked(X)) {
+        Ok(l) => forget(l),
+        Err(e) => { forget(e); assert!(false, "occupied leaf not removable"); }
+    }
+    match nodes.blank_direct_path(leaf_index_unchecked(X)) {
+        Ok(()) => {}
+        Err(e) => { forget(e); assert!(false); }
+    }
+    assert!(nodes.len() == N);
+    // reference direct path in the 16-leaf tree
+    let mut cur = 2 * X as u64;
+    let mut guard = 0;
+    while let Some(p) = rt::parent(cur, 16) {
+        if (p as usize) < N {
+            assert!(matches!(nodes.get(p as usize), Some(None)), "an ancestor of the removed leaf that exists in the vector is not blank");
+        }
+        cur = p;
+        guard += 1;
+        if guard > 5 { break; }
+    }
+    let mut i = 0;
+    while i < N {
+        if i % 2 == 1 && !on_path16(X as u64, i as u64) {
+            assert!(matches!(nodes.get(i), Some(n) if n.is_some() == occ[i]), "a parent off the direct path changed");
+        }
+        i += 1;
+    }
+    kani::cover!(occ[23], "node 23 (inside the vector, above a missing node) was occupied");
+    forget(nodes);
+    kani::cover!(true);
+}
+
+fn on_path16(x: u64, node: u64) -> bool {
+    let mut cur = 2 * x;
+    let mut hit = false;
+    let mut guard = 0;
+    while let Some(p) = rt::parent(cur, 16) {
+        if p == node { hit = true; }
+        cur = p;
+        guard += 1;
+        if guard > 5 { break; }
+    }
+    hit
+}
+
+#[kani::proof]
+#[kani::unwind(30)]
+fn c02_remove_trimmed16_leaf12() { remove_trimmed_case::<12>(); }
+#[kani::proof]
+#[kani::unwind(30)]
+fn c02_remove_trimmed16_leaf13() { remove_trimmed_case::<13>(); }
